@@ -50,6 +50,11 @@ def generate(scratch):
     out.append("/-- `packaging.MaxImportRecursionDepth` (constant in packageinfo.go). -/")
     out.append(f"def maxImportDepth : Nat := {m.group(1) if m else 0}")
     out.append("")
+    out.append("/-- verdict (0 silent, 1 warning, 2 error, 3 panic) of `dsl.ValidateEvolution` executed on a one-step protocol whose")
+    out.append("    step type changes from the second primitive (previous version) to the first (new version). -/")
+    out.append("def primChangeTab : List (Prim × Prim × Nat) := [")
+    out.append(",\n".join(f"  ({lean_prim(a)}, {lean_prim(b)}, {t['primChange'][a][b]})" for a in PRIMS for b in PRIMS) + "]")
+    out.append("")
     tsrc = open(os.path.join(vlib.REPO, "tooling", "pkg", "dsl", "types.go")).read()
     cands = sorted(set(PRIMS) | set(re.findall(r'"(\w+)="', tsrc)) | {"byte", "int", "uint", "long", "ulong", "float", "double", "complexfloat",
                                                                       "complexdouble", "integer", "str", "char", "short", "float16", "uint128", "Int32", "INT"})
